@@ -7,6 +7,7 @@ package ksched
 import (
 	"context"
 	"fmt"
+	"k8s.io/client-go/tools/cache"
 	"sort"
 	"strconv"
 	"strings"
@@ -135,7 +136,8 @@ type wev struct {
 	typ   string
 	key   string // ns/name
 	state int
-	// initial: an Added from the reflector's initial list (client-go sets isInInitialList)
+	// initial: an Added from the reflector's initial list (client-go sets isInInitialList);
+	// for a Deleted: delivered as a cache.DeletedFinalStateUnknown tombstone (deletion seen through a relist)
 	initial bool
 }
 
@@ -396,7 +398,8 @@ func (w *world) applyOp(op Op) error {
 		if err := kit.Delete(w.fc, op.Ns, op.Name); err != nil {
 			return err
 		}
-		e = wev{"Deleted", key, w.cluster[key], false}
+		// a third of the deletions reach the informers as tombstones (the op's otherwise unused state decides)
+		e = wev{"Deleted", key, w.cluster[key], op.State%3 == 0}
 		delete(w.cluster, key)
 	}
 	for _, k := range w.order {
@@ -656,7 +659,11 @@ func (w *world) stepDelivery(inf *informer) {
 			case "Modified":
 				inf.real.OnUpdate(obj, obj)
 			case "Deleted":
-				inf.real.OnDelete(obj)
+				if e.initial {
+					inf.real.OnDelete(cache.DeletedFinalStateUnknown{Key: e.key, Obj: obj})
+				} else {
+					inf.real.OnDelete(obj)
+				}
 			}
 		})
 		inf.cur = d
